@@ -38,7 +38,7 @@ def one_run(job):
     rd = os.path.join(root, ("tsan%03d" if tsan else "run%03d") % i)
     os.makedirs(rd, exist_ok=True)
     pf = params.rhd_params(cfg, rd)
-    env = {"CMI_VERIF_DEADLOCK_POLLS": "300000"}
+    env = {"CMI_VERIF_DEADLOCK_POLLS": "300000", "CMI_VERIF_LOCK_SPINS": "1000000000"}
     if jitter:
         env["CMI_VERIF_JITTER"] = jitter
     if tsan:
@@ -46,9 +46,11 @@ def one_run(job):
     else:
         env["CMI_VERIF_TRACE"] = os.path.join(rd, "trace.bin")
     args = ["--params", pf, "--task-based-rhd", "--number-of-steps", str(steps)]
-    timeout = 400 if tsan else 200
+    timeout = 400 if tsan else 150
     r = binrun.run_cmi(exe, rd, args, env=env, timeout=timeout, threads=threads)
     if r.timed_out:
+        if not tsan and os.path.exists(env["CMI_VERIF_TRACE"]):
+            os.remove(env["CMI_VERIF_TRACE"])   # a second attempt must not append to the trace of the first
         r = binrun.run_cmi(exe, rd, args, env=env, timeout=timeout, threads=threads)
     res = dict(i=i, cfg=cfg, threads=threads, jitter=jitter, steps=steps, tsan=tsan, rc=r.rc, timed_out=r.timed_out,
                stderr_tail=(r.err or "")[-500:], viol=[], stats={}, wall=r.wall, reports=[])
